@@ -19,11 +19,49 @@ EXPLANATION = (
     "only where the order facts give day_submerged <= LagAer (strict guard before the integer increment), so it is >= 0. C04.e: the net-irrigation refill raises (or lowers) each compartment towards the threshold of its own layer - "
     "the per-layer threshold is recomputed from the compartment's own wilting point / field capacity at every layer change and the "
     "root-zone-average threshold computed before the loop cannot reach the refill (reaching definitions + the layer-change idiom) - "
-    "the structural half of the non-negativity of the net requirement. C04.f: every definition of the curve number reaching the retention formula S = 25400/cn - 254 is clamped to constants 0 < lo <= cn <= up <= 100, so S >= 0 is finite and 0 <= runoff <= rain. C04.g (structural half of Es <= EsPot): soil_evaporation's demand ledger - remaining demand + actual evaporation is invariant from its definition to the return (linear template), and every stage potential is defined as min(remaining demand, .) or as a per-sub-step fraction of it. C04.h (structural half of Tr <= TrPot): the root-extraction loop's ledger - remaining demand + actual transpiration invariant through the loop (induction), and the per-compartment sink taken off the ledger has passed the cap against the remaining demand expressed as a water content of the same compartment (later definitions only lower it). C04.i (structural half of DeepPerc >= 0): every comparison in drainage that involves a field capacity uses the adjusted field capacity of the day; the plain value appears in arithmetic only. C04.j = C03.h (the two evaporation extraction loops agree; without the clamp of negative available water the actual evaporation goes negative). C04.k: extraction amounts (added to the evaporation total and taken off the compartment's water) are non-negative on every path into the block. C04.l: the three logistic stress curves (cold stress on transpiration, heat / cold stress on pollination) are evaluated only after their argument was compared with both ends of its interval. C04.m (= T-TIME): no mixture of calendar days and growing degree days (the canopy-ageing counter that lowers the crop coefficient by a per-day rate counts days, never degree days). NOT decided: the numeric inequalities themselves, non-negativity of DeepPerc / CR / GwIn / Runoff / Es "
+    "the structural half of the non-negativity of the net requirement. C04.f: every definition of the curve number reaching the retention formula S = 25400/cn - 254 is clamped to constants 0 < lo <= cn <= up <= 100, so S >= 0 is finite and 0 <= runoff <= rain. C04.g (structural half of Es <= EsPot): soil_evaporation's demand ledger - remaining demand + actual evaporation is invariant from its definition to the return (linear template), and every stage potential is defined as min(remaining demand, .) or as a per-sub-step fraction of it. C04.h (structural half of Tr <= TrPot): the root-extraction loop's ledger - remaining demand + actual transpiration invariant through the loop (induction), and the per-compartment sink taken off the ledger has passed the cap against the remaining demand expressed as a water content of the same compartment (later definitions only lower it). C04.i (structural half of DeepPerc >= 0): every comparison in drainage that involves a field capacity uses the adjusted field capacity of the day; the plain value appears in arithmetic only. C04.j = C03.h (the two evaporation extraction loops agree; without the clamp of negative available water the actual evaporation goes negative). C04.k: extraction amounts (added to the evaporation total and taken off the compartment's water) are non-negative on every path into the block. C04.l: the three logistic stress curves (cold stress on transpiration, heat / cold stress on pollination) are evaluated only after their argument was compared with both ends of its interval. C04.m (= T-TIME): no mixture of calendar days and growing degree days (the canopy-ageing counter that lowers the crop coefficient by a per-day rate counts days, never degree days). C04.n (a rule the code follows at every instance): a comparison between elements of per-compartment arrays (water contents, hydraulic properties) carries one index expression - a content is never tested against another compartment's property. NOT decided: the numeric inequalities themselves, non-negativity of DeepPerc / CR / GwIn / Runoff / Es "
     "(numeric, depend on run-time water contents).")
 
 
+_COMP_PROPS = ("th_wp", "th_fc", "th_s", "th_dry", "th_fc_Adj", "Ksat", "tau")
+
+
+def rule_n(chk, prog):
+    """C04.n (a rule the code follows at every instance): a comparison between elements of per-compartment arrays - water contents and
+    hydraulic properties - compares values of ONE compartment: all such subscripts in a comparison carry the same index expression
+    (`th[i] <= th_wp[i]`). A guard that tests a compartment's content against another compartment's property (`th_wp[-1]`, the bottom one)
+    lets, in a layered soil, a content below its own wilting point through to a formula that then turns negative (capillary rise)."""
+    from ..common import step_roles
+    from ..model import walk_no_nested
+    roles = step_roles(prog)
+    n = 0
+    for key in sorted(roles.reached):
+        fi = prog.funcs[key]
+        where = f"{fi.module}:{fi.qualname}"
+        for c in walk_no_nested(fi.node):
+            if not isinstance(c, ast.Compare):
+                continue
+            idx = {}
+            for x in ast.walk(c):
+                if isinstance(x, ast.Subscript) and isinstance(x.ctx, ast.Load) and not isinstance(x.slice, ast.Slice):
+                    last = norm(x.value).split(".")[-1]
+                    if last in _COMP_PROPS or last.lower() in ("th", "thnew", "th_init") or last.lower().endswith("_th"):
+                        idx.setdefault(norm(x.slice), []).append(norm(x))
+            if sum(len(v) for v in idx.values()) < 2:
+                continue
+            n += 1
+            chk.fn(key)
+            construct = norm(c)[:100]
+            if len(idx) == 1:
+                chk.ok("C04.n", where, construct, f"one compartment: [{next(iter(idx))}]")
+            else:
+                chk.violation("C04.n", where, construct, "the comparison mixes compartments: " + "; ".join(f"[{k}]: {', '.join(sorted(set(v)))}" for k, v in sorted(idx.items()))
+                              + " - a content is tested against another compartment's property", loc=fi.loc(c))
+    chk.floor("C04.n", n, 8, "comparisons between elements of per-compartment arrays below the daily step")
+
+
 def run(chk, prog, tier):
+    rule_n(chk, prog)
     from ._timeunits import time_units
     from ..common import STEP_FN as _STEP, RESET_FN as _RESET
     chk.floor("C04.m", time_units(chk, prog, "C04.m", set(prog.reachable_from(_STEP)) | set(prog.reachable_from(_RESET)) | {_STEP}), 120,
